@@ -51,7 +51,16 @@ struct Ctx<'a> {
     errors: Vec<String>,
     float: bool,
     macro_map: HashMap<String, String>,
+    /// R9.method: method-call identifier renames (`x.extend(v)` -> `x.vx_extend(v)`), the target is a prelude stub
+    method_map: HashMap<String, String>,
+    /// R9.extend: `X.extend(Y.iter().cloned())` -> `X.extend_from_slice(Y.as_slice())` (rules.extend_slice)
+    r9_extend: bool,
     boolops_all: bool,
+    /// R10.forrange (rules.forrange: [keys]): `for PAT in LO..HI { B }` ->
+    /// `{ let mut vx_iK = LO; let vx_hiK = HI; while vx_iK < vx_hiK { let PAT = vx_iK; vx_iK += 1; B } }`
+    /// (Verus for-loops do not support `continue`); K = ordinal of the rewritten loop in the item
+    forrange: bool,
+    for_seq: usize,
 }
 
 impl<'a> Ctx<'a> {
@@ -70,7 +79,11 @@ impl<'a> Ctx<'a> {
             errors: vec![],
             float: false,
             macro_map: HashMap::new(),
+            method_map: HashMap::new(),
+            r9_extend: false,
             boolops_all: false,
+            forrange: false,
+            for_seq: 0,
         }
     }
     fn off(&self, lc: proc_macro2::LineColumn) -> usize {
@@ -248,6 +261,35 @@ impl<'c, 'a, 'ast> Visit<'ast> for Rewriter<'c, 'a> {
         }
         visit::visit_path(self, p);
     }
+    fn visit_expr_for_loop(&mut self, e: &'ast syn::ExprForLoop) {
+        // R10.forrange: integer range for-loop -> while loop with the same iteration values.
+        // The increment is placed at the head of the body, so `continue`/`break` keep their meaning
+        // (this is exactly Range::next: yield the current value, then step).
+        if self.cx.forrange && e.label.is_none() {
+            if let syn::Expr::Range(r) = &*e.expr {
+                if let (Some(lo), Some(hi), syn::RangeLimits::HalfOpen(_)) = (&r.start, &r.end, &r.limits) {
+                    let k = self.cx.for_seq;
+                    self.cx.for_seq += 1;
+                    let (fs, _) = self.cx.range(e.for_token.span());
+                    let (bs, be) = self.cx.range(e.body.span());
+                    let lo_t = self.cx.text(lo.span()).to_string();
+                    let hi_t = self.cx.text(hi.span()).to_string();
+                    let pat_t = self.cx.text(e.pat.span()).to_string();
+                    self.cx.push(
+                        fs,
+                        bs,
+                        format!("{{ let mut vx_i{k} = {lo_t}; let vx_hi{k} = {hi_t}; while vx_i{k} < vx_hi{k} "),
+                        "R10.forrange",
+                    );
+                    self.cx.push(bs + 1, bs + 1, format!(" let {pat_t} = vx_i{k}; vx_i{k} += 1;"), "R10.forrange.head");
+                    self.cx.push(be, be, " }", "R10.forrange.close");
+                    self.visit_block(&e.body);
+                    return;
+                }
+            }
+        }
+        visit::visit_expr_for_loop(self, e);
+    }
     fn visit_expr_binary(&mut self, e: &'ast syn::ExprBinary) {
         if self.boolops || self.cx.boolops_all {
             match &e.op {
@@ -263,6 +305,32 @@ impl<'c, 'a, 'ast> Visit<'ast> for Rewriter<'c, 'a> {
             }
         }
         visit::visit_expr_binary(self, e);
+    }
+    fn visit_expr_method_call(&mut self, e: &'ast syn::ExprMethodCall) {
+        // R9.extend (rules.extend_slice): `X.extend(Y.iter().cloned())` -> `X.extend_from_slice(Y.as_slice())`
+        // (Verus has no iterator adapters; vstd specifies Vec::extend_from_slice). Same result for Vec<T: Clone>.
+        if self.cx.r9_extend && e.method == "extend" && e.args.len() == 1 && e.turbofish.is_none() {
+            if let syn::Expr::MethodCall(c) = &e.args[0] {
+                if let (true, syn::Expr::MethodCall(it)) = (c.method == "cloned" && c.args.is_empty(), &*c.receiver) {
+                    if it.method == "iter" && it.args.is_empty() {
+                        let (a, b) = self.cx.range(e.method.span());
+                        self.cx.push(a, b, "extend_from_slice", "R9.extend");
+                        let (_, ye) = self.cx.range(it.receiver.span());
+                        let (_, ce) = self.cx.range(c.span());
+                        self.cx.push(ye, ce, ".as_slice()", "R9.extend.arg");
+                        self.visit_expr(&e.receiver);
+                        self.visit_expr(&it.receiver);
+                        return;
+                    }
+                }
+            }
+        }
+        // R9.method: rename the method identifier only (receiver and arguments untouched)
+        if let Some(rep) = self.cx.method_map.get(&e.method.to_string()).cloned() {
+            let (a, b) = self.cx.range(e.method.span());
+            self.cx.push(a, b, rep, "R9.method");
+        }
+        visit::visit_expr_method_call(self, e);
     }
     fn visit_macro(&mut self, mac: &'ast syn::Macro) {
         let name = mac
@@ -608,6 +676,20 @@ fn apply_contract(cx: &mut Ctx, f: &FnInfo, contract: Option<&Value>, mutself: b
             cx.push(ls, ls, format!("\n{}\n", v.as_str().unwrap_or("")), "R1.loop");
         }
     }
+    if let Some(loops) = c.get("loop_ends").and_then(|v| v.as_object()) {
+        // ghost code at the end of the body of loop k (before its closing brace)
+        let mut lf = LoopFinder { loops: vec![] };
+        lf.visit_block(block);
+        for (k, v) in loops {
+            let idx: usize = k.parse().unwrap_or(usize::MAX);
+            if idx >= lf.loops.len() {
+                cx.errors.push(format!("ANCHOR-LOST {}: loop ordinal {} not found ({} loops)", f.key, k, lf.loops.len()));
+                continue;
+            }
+            let (_, le) = cx.range(lf.loops[idx].1);
+            cx.push(le - 1, le - 1, format!("\n{}\n", v.as_str().unwrap_or("")), "R1.proof");
+        }
+    }
     if let Some(ins) = c.get("inserts").and_then(|v| v.as_array()) {
         let body = &cx.src[bs..be];
         let mut todo = vec![];
@@ -784,6 +866,10 @@ fn main() {
         .as_array()
         .map(|a| a.iter().filter_map(|v| v.as_str().map(String::from)).collect())
         .unwrap_or_default();
+    let forrange: HashSet<String> = rules["forrange"]
+        .as_array()
+        .map(|a| a.iter().filter_map(|v| v.as_str().map(String::from)).collect())
+        .unwrap_or_default();
     let macro_map: HashMap<String, String> = rules["macro_map"]
         .as_object()
         .map(|m| {
@@ -793,6 +879,16 @@ fn main() {
         })
         .unwrap_or_default();
 
+    let method_map: HashMap<String, String> = rules["method_map"]
+        .as_object()
+        .map(|m| {
+            m.iter()
+                .map(|(k, v)| (k.clone(), v.as_str().unwrap_or("").to_string()))
+                .collect()
+        })
+        .unwrap_or_default();
+
+    let r9_extend = rules["extend_slice"].as_bool().unwrap_or(false);
     let mut segments = vec![];
     let mut errors: Vec<String> = vec![];
     let mut used_contracts: HashSet<String> = HashSet::new();
@@ -841,6 +937,7 @@ fn main() {
             let mut cx = Ctx::new(&src);
             cx.float = float && !sel["nofloat"].as_bool().unwrap_or(false);
             cx.macro_map = macro_map.clone();
+            cx.method_map = method_map.clone(); cx.r9_extend = r9_extend;
             if kind == "lift" {
                 // R6/R8: lift a closure bound to a `let` or the body of loop k of a function into a free fn
                 let want_ty = sel["type"].as_str();
@@ -922,6 +1019,7 @@ fn main() {
                 let mut cx = Ctx::new(&src);
                 cx.float = float && !sel["nofloat"].as_bool().unwrap_or(false);
                 cx.macro_map = macro_map.clone();
+                cx.method_map = method_map.clone(); cx.r9_extend = r9_extend;
                 {
                     let mut st = AttrStripper { cx: &mut cx };
                     st.visit_block(block);
@@ -938,6 +1036,7 @@ fn main() {
                 {
                     cx.boolops_all = boolops.contains("*");
                     let b = boolops.contains(&lname);
+                    cx.forrange = forrange.contains(&lname);
                     let mut rw = Rewriter { cx: &mut cx, boolops: b, in_macro: false };
                     rw.visit_block(block);
                 }
@@ -1026,6 +1125,10 @@ fn main() {
                 let mut st = AttrStripper { cx: &mut cx };
                 st.visit_item(it);
             }
+            if let Some(a) = sel["attrs"].as_str() {
+                // verifier-only attributes (e.g. reject_recursive_types) in front of the item
+                cx.push(istart, istart, format!("{}\n", a), "R1.verifierattr");
+            }
             vis_edits_item(&mut cx, it);
             let mut fninfos: Vec<FnInfo> = vec![];
             let mut fn_meta = vec![];
@@ -1056,9 +1159,27 @@ fn main() {
                                 let n = f.sig.ident.to_string();
                                 if !fns.is_empty() && !fns.contains(&n) {
                                     let (a, b) = cx.range(ii.span());
+                                    // a dropped fn without attributes starts at its `fn` token: the
+                                    // zero-width `pub ` (R0.vis) inserted there must go with it
+                                    cx.edits.retain(|e| !(e.rule == "R0.vis" && e.start >= a && e.end <= b));
                                     cx.push(a, b, "", "R0.dropfn");
                                 } else {
                                     seen.insert(n.clone());
+                                    // selector "fn_attrs": {"fn name": "#[verifier::…]"}: verifier-only
+                                    // attribute in front of one method (before its visibility)
+                                    if let Some(a) = sel["fn_attrs"].get(&n).and_then(|v| v.as_str()) {
+                                        let fs = cx.range(first_sig_token(&f.sig)).0;
+                                        let at = match &f.vis {
+                                            syn::Visibility::Inherited => fs,
+                                            v => cx.range(v.span()).0,
+                                        };
+                                        let txt = format!("{} ", a);
+                                        if let Some(e) = cx.edits.iter_mut().find(|e| e.rule == "R0.vis" && e.start == at) {
+                                            e.text = format!("{}{}", txt, e.text);
+                                        } else {
+                                            cx.push(at, at, txt, "R1.verifierattr");
+                                        }
+                                    }
                                     let key = match &tr {
                                         Some(t) if sel["keytrait"].as_bool().unwrap_or(false) => {
                                             format!("{} for {}::{}", t, ty, n)
@@ -1194,6 +1315,7 @@ fn main() {
                                     };
                                     if let Some(k) = key {
                                         let b = boolops.contains(&k);
+                                        cx.forrange = forrange.contains(&k);
                                         let mut rw = Rewriter { cx: &mut cx, boolops: b, in_macro: false };
                                         rw.visit_impl_item_fn(f);
                                     }
